@@ -351,6 +351,11 @@ func LoadFromViper(inputViper *viper.Viper) (Config, error) {
 
 	// then override with settings from input viper (higher precedence)
 	for _, key := range inputViper.AllKeys() {
+		// A flag bound to the input viper that was not given on the command line only
+		// carries its default value: it must not override the value from the file.
+		if !inputViper.IsSet(key) {
+			continue
+		}
 		// Handle special case for prefixed keys
 		if after, ok := strings.CutPrefix(key, "rollkit."); ok {
 			// Strip the prefix for the merged viper
